@@ -111,6 +111,36 @@ def r2_definitions(R) -> None:
     # shift
     f = Fn(R, f'{F}.shift')
     rolled = [n for n in f.cfg.nodes if n.kind == 'stmt' and isinstance(n.ast, ast.Assign) and is_call(n.ast.value, 'np.roll')]
+    copies = [n for n in f.cfg.nodes if n.kind == 'stmt' and isinstance(n.ast, ast.Assign) and isinstance(n.ast.targets[0], ast.Subscript)
+              and isinstance(n.ast.value, ast.Subscript) and text(n.ast.value.value) == 'x']
+    if not rolled and copies:
+        # a slice bound `length - p` (or `length + p`) turns negative when |p| exceeds the length, and a negative bound counts
+        # from the other end: it must stand under a fact that keeps it non-negative, or be clamped
+        from fsa.match import entails
+        LEN = ('x.shape[0]', 'len(x)', 'x.size')
+        for n in copies:
+            for sl_ in (n.ast.targets[0].slice, n.ast.value.slice):
+                if not isinstance(sl_, ast.Slice):
+                    continue
+                for b_ in (sl_.lower, sl_.upper):
+                    if b_ is None:
+                        continue
+                    e_ = f.expand(n.id, b_)
+                    a_ = affine(e_)
+                    if a_ is None or set(a_.terms) - set(LEN) - {'p'} or 'p' not in a_.terms or not (set(a_.terms) & set(LEN)):
+                        continue
+                    L_ = [k for k in a_.terms if k in LEN][0]
+                    if a_.terms[L_] != 1 or a_.const != 0 or a_.terms['p'] not in (1, -1):
+                        continue
+                    facts = f.xguard_atoms(n.id)
+                    need = f'p < {L_}' if a_.terms['p'] == -1 else f'-p < {L_}'
+                    alt = f'p <= {L_}' if a_.terms['p'] == -1 else f'-p <= {L_}'
+                    safe = any(entails(facts, ast.parse(t_, mode='eval').body, True) for t_ in (need, alt))
+                    R.check(safe, f.q, f'negative-slice-bound:{text(b_)}', f'the slice bound `{text(b_)}` cannot turn negative where it is used',
+                            f'`{text(n.ast)[:60]}`: the bound `{text(b_)}` (= {text(e_)}) is negative when |p| exceeds the length of `x`, and a negative bound counts from the '
+                            f'other end of the array: shifting by more than the length copies from the wrong place or fails on a length mismatch (no `{need}` guard, no clamp)',
+                            where=f.where(n))
+        raise Unknown(f'{f.q}: the shift is made by copying slices of `x` directly (`{text(copies[0].ast)[:50]}`), not by np.roll(): the slice arithmetic is not read')
     if R.require(f.q, len(rolled), 'shifted = np.roll(x, shift=p)', fi=f.fi, pred=lambda x: is_call(x, 'np.roll')):
         c = rolled[0].ast.value
         sh = kwarg(c, 'shift') or (c.args[1] if len(c.args) > 1 else None)
@@ -280,6 +310,14 @@ def r5_no_self_writes(R) -> None:
         from rules.c14 import global_writes
         from rules.common import module_bound_names
         for w in global_writes(fi, module_bound_names(R.repo, fi.module.name)):
+            # a remembered namespace that is compared, array by array (identity), with what the container holds now before
+            # it is used again is a validated cache: whether the validation is complete is not decided here
+            ident = [c_ for c_ in ast.walk(fi.node) if isinstance(c_, ast.Compare) and len(c_.ops) == 1 and isinstance(c_.ops[0], (ast.Is, ast.IsNot))
+                     and any(isinstance(y, ast.Subscript) for y in ast.walk(c_.left)) and not is_const(c_.comparators[0], None)
+                     and any(isinstance(g_, (ast.GeneratorExp, ast.ListComp)) and any(y is c_ for y in ast.walk(g_)) for g_ in ast.walk(fi.node))]
+            if ident:
+                raise Unknown(f'{q}: `{text(w)[:60]}` remembers a namespace between evaluations, re-checked by identity (`{text(ident[0])[:50]}`) before reuse: '
+                              f'a validated cache, whose completeness this rule does not decide')
             R.violation(q, 'eval-state:' + text(w)[:50], f'`{text(w)[:70]}` keeps state at module level between evaluations: a later eval() can compute with arrays the container '
                         f'no longer holds', where=f'{fi.module.relpath}:{w.lineno}')
 
